@@ -114,6 +114,13 @@ def build_compound(mask, kind):
             sym = f"{c}/{den[d]}" + ('²' if kind == 'dur2' else '')
             w.must(['unit', 'PPX', sym, ['derive', [c, den[d]]]])
             declared.append(sym)
+    # price units defined through another price unit (currency one level
+    # down in the definition)
+    if kind == 'mass' and mask & 3 == 3:
+        for c in ('EUR', 'USD'):
+            sym = f"c{c}/kg"
+            w.must(['unit', 'PPX', sym, ['scaled', 'D:0.01', f"{c}/kg"]])
+            declared.append(sym)
     return w, declared
 
 
@@ -227,6 +234,24 @@ def part_money(p, rates):
                                           st):
                     st.violation(sig, msg, {'money': [c, str(a), uc, tc, v,
                                                       form, mode]})
+    # with a money converter ACTIVE a non-matching currency must still be
+    # rejected (the converter must not be consulted by rate application)
+    from datetime import date
+    from quantity.money import MoneyConverter
+    conv = MoneyConverter(cur('EUR'), lambda: date(2020, 1, 1))
+    conv.update(None, [(cur('USD'), O.dec('D:1.25'), 1),
+                       (cur('JPY'), O.dec('i:125'), 1),
+                       (cur('TND'), O.dec('D:3.2'), 1)])
+    with conv:
+        for a in AMTS[1:4]:
+            for uc, tc, v in rates[::3]:
+                for form in ('m*r', 'r*m', 'm/r'):
+                    st.paths += 1
+                    for sig, msg in run_money(c, str(a), uc, tc, v, form,
+                                              mode, st):
+                        st.violation(sig + ':converter-active', msg, {
+                            'money': [c, str(a), uc, tc, v, form, mode],
+                            'converter': True})
     # amounts at and next to the ties of each matching (rate, operation)
     for uc, tc, v in rates:
         rv = O.fr(mk_rate(uc, tc, v).rate)
